@@ -58,10 +58,12 @@ SOURCES = {
     'c10': (None, ['atom-massrho', 'keywords', 'exponents', 'atom-atomrho']),
     'c12': (None, ['data-n', 'shorthand-r', 'data-np-two-cards',
                    'cell-cards-np']),
+    'shared-density': (None, ['inter', 'partition', 'shared']),
 }
 FORTRAN_FIELDS = ['surface', 'tr', 'material', 'density', 'inline']
 SINGLE = ['case', 'tabs', 'cont5', 'amp', 'ccomment', 'dollar', 'message',
-          'numbers', 'shorthand', 'delims', 'nofinalnl', 'indent', 'blanks']
+          'numbers', 'shorthand', 'delims', 'nofinalnl', 'indent', 'blanks',
+          'rho-any']
 _PER = {'quick': 3, 'thorough': 120}
 _K = {'quick': 5, 'thorough': 10}
 
@@ -115,6 +117,15 @@ def build(case):
         return c10.build(_Sub(case, fam))
     if src == 'c12':
         return c12.build(_Sub(case, fam))
+    if src == 'shared-density':
+        # several cells with the same material and the same density
+        deck = gen_cells.build(rng, fam)
+        rho = f'-{rng.randint(1, 9)}.{rng.randint(0, 9)}'
+        for cel in deck.cells:
+            if int(cel.mat) != 0:
+                cel.mat = 1
+                cel.rho = rho
+        return deck
     return SOURCES[src][0](rng, fam)
 
 
@@ -168,6 +179,14 @@ def run(case, ctx):
                           mech=mech, recipe=desc)
             continue
         diff = formats.first_difference(base.output, run_v.output)
+        if diff is not None and 'rho-any' in recipe.on:
+            # density spellings outside C09's class may change composition
+            # NAMES; compare the meaning instead
+            view_a = formats.semantic_view(base.output)
+            view_b = formats.semantic_view(run_v.output)
+            out.counters['semantic_comparisons'] += 1
+            if view_a is not None and view_a == view_b:
+                diff = None
         if diff is not None:
             mech = None
             if src == 'fortran' and formats.first_difference(
